@@ -146,3 +146,12 @@ func verifRandRead(b []byte) (int, error) {
 func verifFixedNow() time.Time { return time.Unix(1700000000, 0) }
 
 func verifNoReaper(r *sessionRegistry) {}
+
+// verifJSONMarshal stands in for encoding/json.Marshal where the rendered
+// bytes are not the subject: it records the value and returns a fixed body.
+var verifJSONLast interface{}
+
+func verifJSONMarshal(v interface{}) ([]byte, error) {
+	verifJSONLast = v
+	return []byte("{}"), nil
+}
